@@ -144,6 +144,13 @@ type c12Witness struct {
 
 var c12Pool []*rules.NetworkRule
 
+var c12HostileHosts = []string{
+	strings.Repeat("a.", 126) + "example.org", strings.Repeat("a.", 127) + "org", strings.Repeat("a.", 128) + "example.org",
+	strings.Repeat("b.", 200) + "com", strings.Repeat("c.", 1000) + "example.org",
+	strings.Repeat("x", 300) + ".example.org", strings.Repeat("y", 5000) + ".com", "a..b.example.org", ".example.org", "example.org.", "...", ".",
+	strings.Repeat(".", 300), "example.org" + strings.Repeat(".sub", 70) + ".example.org", strings.Repeat("9.", 64) + "1",
+}
+
 func c12Requests(c *core.Ctx, line string) []*gen.Req {
 	reqs := []*gen.Req{
 		{URL: "http://a.com/ads/banner.js?q=1", Source: "http://example.org/", Type: rules.TypeScript},
@@ -153,6 +160,20 @@ func c12Requests(c *core.Ctx, line string) []*gen.Req {
 	}
 	for i := 0; i < 3; i++ {
 		reqs = append(reqs, gen.RandomReq(c.Rng, 0.3))
+	}
+	// Requests nobody validated: host names of more labels and bytes than a
+	// name can have, on the request and on the referrer side and as DNS
+	// questions ("any request").
+	for i := 0; i < 2; i++ {
+		h := c12HostileHosts[c.Rng.Intn(len(c12HostileHosts))]
+		switch c.Rng.Intn(3) {
+		case 0:
+			reqs = append(reqs, &gen.Req{URL: "http://a.com/ads/banner.js", Source: "http://" + h + "/", Type: rules.TypeScript})
+		case 1:
+			reqs = append(reqs, &gen.Req{URL: "https://" + h + "/ads/banner.js", Source: "http://" + h + "/page", Type: rules.TypeImage})
+		default:
+			reqs = append(reqs, &gen.Req{HostnameReq: true, Host: h, DNSType: 1})
+		}
 	}
 	// A URL built from the line itself, so that patterns meet it.
 	lit := strings.NewReplacer("||", "http://", "|", "", "^", "/", "*", "x", "@@", "").Replace(line)
